@@ -79,7 +79,7 @@ PROPS = {
         assumptions=[],
     ),
     "C03": dict(
-        units=["store", "parser", "sessions"],
+        units=["store", "parser", "sessions", "consensus"],
         undecided=["who is subscribed when (watch/unwatch/unwatch-all/disconnect races)", "delivery on a full channel (try_send)",
                    "final-view currency under concurrent writers"],
         assumptions=["notify_watchers is trusted to hand exactly one (key,value,version) record to the watchers of the key and to leave the store untouched",
@@ -99,7 +99,7 @@ PROPS = {
                      "AtomicUsize::fetch_add is modelled as a wrapping add on a plain usize"],
     ),
     "C08": dict(
-        units=["security", "store", "dispatch", "listing", "replies", "outbox"],
+        units=["security", "store", "dispatch", "listing", "replies", "outbox", "sessions"],
         kani=[K_FILTER],
         undecided=["handlers that do not go through apply_if_safe_access: the Resolve, Arbiter and rp (ReplicateRequest) arms of the dispatcher "
                    "- a non-admin `resolve ... $$token ...` is outside every contract here (the six keyed data arms get / get-safe / watch / set / increment / "
@@ -112,7 +112,7 @@ PROPS = {
                      "the session may access the key"],
     ),
     "C09": dict(
-        units=["security", "store", "dispatch", "permissions", "outbox"],
+        units=["security", "store", "dispatch", "permissions", "outbox", "sessions"],
         kani=[K_AUTH, K_KIND],
         undecided=["dispatcher arms that are not a single guard call: Auth, UseDb (failed use-db leaving the selection untouched is checked by the bounded sweep only), "
                    "Resolve, ReplicateRequest (rp); the closure bodies handed to the guards are abstracted (R10), so WHAT an arm does once allowed is not verified here",
@@ -175,7 +175,7 @@ PROPS = {
                      "sessions are modelled abstractly in the accounting lemmas: a map from session ids to the selected database"],
     ),
     "C05": dict(
-        units=["sync", "outbox"],
+        units=["sync", "outbox", "oplog"],
         undecided=["the protocol: join / replicate-since handshake, the supervisor loop, sockets, writes accepted during the synchronisation (async code, several processes)",
                    "the incremental path: that the operation-log query reports every pair changed since `since` is C12 (unit oplog); here ops_since(since) is any map of records whose "
                    "identifiers decode (precondition `decodes`: C16's subject); the comparison closure of its sort_by is replaced by a trusted shim (log order)",
